@@ -242,12 +242,16 @@ class Tracer:
 
     def _ev_germination(self, a, k, ret):
         cond = ret
-        ev = {"e": "Germinate", "germ": bool(cond.germination)}
+        ev = {"e": "Germinate", "germ": bool(cond.germination), "gs": bool(a[6]), "delayedCds": to_num(cond.delayed_cds),
+              "delayedGdds": to_num(cond.delayed_gdds), "gdd": to_num(a[5])}
         return self._wp(ev, th=cond.th, pond=cond.surface_storage)
 
     def _ev_growth_stage(self, a, k, ret):
         cond = ret
-        ev = {"e": "GrowthStage", "stage": int(cond.growth_stage)}
+        crop = a[0]
+        tadj = (cond.dap - cond.delayed_cds) if int(crop.CalendarType) == 1 else (cond.gdd_cum - cond.delayed_gdds)
+        ev = {"e": "GrowthStage", "stage": int(cond.growth_stage), "gs": bool(a[2]), "tadj": to_num(tadj),
+              "c10": to_num(crop.Canopy10Pct), "maxc": to_num(crop.MaxCanopy), "sen": to_num(crop.Senescence)}
         return self._wp(ev, th=cond.th, pond=cond.surface_storage)
 
     def _ev_canopy_cover(self, a, k, ret):
